@@ -74,8 +74,8 @@ def _e2e(text):
 
 
 CLAIMS.update({
-    'C02': dict(_e2e('SYSTEM LEVEL (exploration, synctest e2e): after the fault prefix ends every reliable message is read and both sides report zero buffered/pending/in-flight bytes within heal + 600 s of virtual time (blackouts > 60 s, zero-window readers, 40 % loss, reordering). '
-        'COMPONENT LEVEL (supporting theorems, loss-recovery machinery only: Props/C02rack.lean on Model/Rack.lean, whose conditions and formulas are regenerated from onRackAfterSACK / onRackTimeoutLocked / '
+    'C02': dict(_e2e('After the fault prefix ends every reliable message is read and both sides report zero buffered/pending/in-flight bytes within heal + 600 s of virtual time (blackouts > 60 s, zero-window readers, 40 % loss, reordering). '
+        'LOSS-RECOVERY COMPONENT (proof, RACK / RACK timer / PTO / TLR gate only: Props/C02rack.lean on Model/Rack.lean, whose conditions and formulas are regenerated from onRackAfterSACK / onRackTimeoutLocked / '
         'onPTOTimerLocked / schedulePTOAfterSendLocked / tlr*Locked / the RTT part of processSelectiveAck on every run, and which is compared with a white-box snapshot of the real Association after '
         'every op of the direct-drive harness): RACK marks only outstanding original transmissions and only when a chunk sent more than the reordering window later was delivered '
         '(C02_rack_marks_only_outstanding, C02_rack_loss_sound, C02_rack_never_marks_newest); the window stays in [0, SRTT] (C02_reownd_bounded); the RACK timer is armed whenever the list is non-empty, '
@@ -84,7 +84,7 @@ CLAIMS.update({
         'Two full-strength statements are FALSE of the code and proved false: the RACK timer callback never marks anything in any reachable state (C02_rack_timer_inert, witness '
         'C02_rack_timer_overdue_witness, replayed from corpus/C02), and a PTO that finds data pending flags nothing and is not re-armed even when the window blocks new data '
         '(C02_pto_no_probe_when_pending, replayed from corpus/C02); in both cases recovery falls back to the next SACK or T3, which is why the e2e liveness predicate still holds. '
-        'NOT proved: end-to-end liveness (C02_progress / C02_drain of DESIGN §5); the claimed level therefore stays exploration, the theorems are supporting.'),
+        'These component theorems say nothing about end-to-end liveness.'),
         technique='Lean 4 proof (walk lemmas, invariant + induction over all operation lists of the loss-recovery component, decide on witnesses) on translator-generated conditions + white-box model/implementation differential replay; system level: seeded fault-schedule exploration in virtual time'),
     'C06': dict(_e2e('SYSTEM LEVEL (exploration, synctest e2e + PolicySpec on the wire): unordered / partially reliable streams: reads must match distinct written messages (subsequence for ordered), DCEP always delivered in order; transmissions per chunk within the policy (known finding D14). '
         'COMPONENT LEVEL (supporting theorems, one clause: "abandoned chunks are not skipped by one of the retransmission paths"): Props/C06rack.lean on Model/Rack.lean - RACK on a SACK, the RACK timer, the PTO and T3 flag '
@@ -95,7 +95,6 @@ CLAIMS.update({
     'C07': _e2e('Partial-reliability scenarios: a message that was not delivered must be one the sender told the peer to skip (stream entry or cumulative point of a FORWARD-TSN / I-FORWARD-TSN); everything else is delivered.'),
     'C08': _e2e('Graceful shutdown with data still queued, one-sided and crossed, under faults: Shutdown()==nil implies all earlier writes read in order before EOF; both sides closed; late writes/OpenStream rejected and never delivered.'),
     'C09': _e2e('Close / Abort / transport read failure / write failure injected right after the k-th wire event of runs that go through handshake, transfer, stream reset and shutdown, with callers parked in Connect, Accept, Read, Write, Shutdown: everything returns, no goroutine of the package survives, no write to a closed conn, Close idempotent, ABORT cause reaches the peer.'),
-    'C14': _e2e('Stream close by the writer then by the reader, re-open of the same identifier for up to 3 incarnations, several streams at once, under loss/duplication/reordering of DATA and RECONFIG: all messages then EOF per incarnation.'),
     'C18': _e2e('API-contract programs: oversize / empty / closed-stream writes, blocking writes with deadlines, short read buffers (message stays available), read deadlines expiring with no data; rejected calls are invisible in the peer read history; blocking-write gate checked white-box.'),
 })
 
@@ -155,6 +154,19 @@ CLAIMS['C13'] = {
     'technique': 'Lean 4 proof (case analysis of the checksum stage) + model/implementation differential replay',
 }
 
+CLAIMS['C03'] = {
+    'text': 'DECODER (proof): Props/C03dec.lean on the L0 codec model (the same model C12 is proved about, tied to packet.go / chunk_*.go / param_*.go / error_cause_*.go by '
+            'differential replay of every generated and every hostile byte string): for EVERY byte string the decoder terminates with a packet or one of its listed '
+            'errors — the only panic outcomes are the explicit ones of the model, none reachable from packet.unmarshal —, consumes at most the bytes it was given, and a chunk\'s '
+            'decoding depends only on that chunk\'s own bytes (locality, D3). C03_state_guards_pinned pins the state gate of inbound DATA as extracted from the source. '
+            'ASSOCIATION LEVEL (exploration): the direct-drive sender harness feeds SACKs that the validation must reject (unknown TSNs, gap blocks outside the queue, stale '
+            'cumulative points) and checks that a rejected SACK leaves the logged state unchanged; the e2e partial-reliability scenarios feed FORWARD-TSN / I-FORWARD-TSN for '
+            'unknown streams and more streams than the accept backlog; every harness run executes under recover() — a panic of the implementation is a violation with the op log as replay. '
+            'NOT covered yet: hostile DATA / hostile RECONFIG at association level (pending: receiver and reset harnesses).',
+    'note': NOTE_COMMON,
+    'technique': 'Lean 4 proof (totality and locality of the decoder model) + model/implementation differential replay on well-formed and malformed packets + direct-drive and e2e exploration',
+}
+
 SENDER_NOTE = (NOTE_COMMON + ' The L0 model Model/Sender.lean is hand-written (send / acknowledgement paths of association.go, payload_queue.go, '
                'queue.go as a list, stream.go write half); its window tests, window updates, congestion formulas, chunk sizes and the two tests of '
                'onBufferReleased are NOT re-typed: they are Gen.* defs the translator regenerates from those very expressions of /repo on every run '
@@ -203,6 +215,176 @@ CLAIMS.update({
         'note': SENDER_NOTE + ' Per-stream theorems assume the ghost flag wrapBuf is down (no uint64 wrap of bufferedAmount). C15_callback_unlocked is syntactic (lock events per path of one '
                 'function, neighbours of the call statement), the harness adds a dynamic TryLock probe; deadlock freedom in general is C20.',
         'technique': 'Lean 4 proof (accounting invariant + induction over op lists; decide on translator-extracted lock paths) + model/implementation differential replay',
+    },
+})
+
+# C02 / C07: sender-side theorems over the L0 sender model (Props/C02.lean, Props/C07.lean); the receiver half and the
+# composition over a faulty network stay at exploration level (the e2e claims above are kept verbatim inside the text)
+CLAIMS.update({
+    'C02': {
+        'text': 'SENDER SIDE (proof): Lean theorems over the L0 sender model, all configurations with MTU < 2^30, ALL operation lists from init (arbitrary earlier loss, '
+                'duplication and reordering of SACKs, zero-window episodes, congestion collapse, any number of T3 expiries), all oracle values: C02_t3_marks_all (T3 is total, has no '
+                'retry limit, and after any number of expiries every chunk that is neither acked nor abandoned is flagged), C02_rtx_progress_partial (the lowest flagged chunk opens the '
+                'first retransmission packet of a gather whatever cwnd/rwnd are when it is the earliest outstanding chunk, and whenever it fits min(cwnd, rwnd); the literal '
+                '"lowest flagged chunk, always" is false - C02_rtx_lowest_not_first_witness, replayed on the code from corpus/C02 - because the window exception is tied to loop index 0), '
+                'C02_probe_when_blocked (nothing in flight + something pending => a gather admits a chunk for every cwnd and rwnd; for every rwnd smaller than the chunk, 0 included, exactly '
+                'that chunk as the probe), C02_ack_progress (a validated SACK ahead of the cumulative point is accepted, pops k >= 1 chunks and their bytes; empty queues => zero buffered '
+                'bytes), C02_drains_fault_free and C02_recovers_after_blackout (from EVERY reachable established state the schedule "[T3;] rounds of gather + SACK acknowledging everything '
+                'in flight" empties both queues and all buffered amounts within pending chunks + 1 <= pending bytes + 1 rounds, for every window the SACKs advertise and every peek choice: '
+                'no reachable sender state is a dead end), C02_recovers_faithful (the same with a peer whose SACK is earned: each round = T3 expiry, gather, cumulative SACK for exactly the longest prefix '
+                'of the queue a peer that keeps nothing beyond its cumulative point can have - gap-acked before, skipped by this gather\'s FORWARD-TSN, or put on the wire by this gather; '
+                'in-flight + pending rounds suffice). NOT covered by theorems: timers really firing and goroutine wake-ups, the RECEIVER half (in the drain theorems the peer\'s SACK is '
+                'an input of the schedule), the composition over a network that eventually heals, the wall-clock bound. '
+                'SYSTEM LEVEL (exploration, synctest e2e): ' + CLAIMS['C02']['text'],
+        'note': SENDER_NOTE + ' Premises of the drain theorems: fragment size <= maxPayloadSizeForMTU (CfgFit), peek returns a chunk of a non-empty queue (PickOk), fewer than 2^31 chunks queued. '
+                'The round bound is the worst case one chunk per round (cwnd at its floor or closed peer window); it does not use cwnd growth. ' + E2E_NOTE,
+        'technique': 'Lean 4 proof (run invariants Seq/Core/PendFit, progress lemmas, induction on the number of pending chunks) + model/implementation differential replay of a direct-driven real '
+                     'Association + seeded e2e exploration with Lean-defined predicates for the system-level statement',
+    },
+    'C07': {
+        'text': 'SENDER SIDE (proof) - what the peer is told to skip: Lean theorems over the L0 sender model (now including the contents of FORWARD-TSN / I-FORWARD-TSN, compared with the chunk '
+                'every real gather emits), all configurations with MTU < 2^30 and partial reliability negotiated, ALL operation lists, all oracle values, premise TsnOk (< 2^31 TSNs outstanding '
+                'in every state): C07_skip_only_abandoned (the advanced peer ack point lies inside the in-flight queue and every chunk in (cumAck, advPeerAck] is abandoned - never a merely '
+                'gap-acked or a reliable chunk), C07_skip_maximal (after an accepted SACK and after T3 the chunk right after the point is not abandoned), C07_forward_flag (point ahead of the '
+                'cumulative point => flag up after SACK and after every T3; a gather emits the chunk exactly when flag and point say so, with that point and the lists of the state it leaves), '
+                'C07_forward_lists_exact (one entry per stream; each entry is the SSN/MID of an abandoned ORDERED chunk in the range - unordered ones are not listed in FORWARD-TSN; it is the '
+                'greatest one when fewer than 2^15 SSNs / 2^31 MIDs of the stream are skipped at once), C07_abandonment_monotone (no premise), C07_reliable_never_abandoned (DCEP chunks and chunks '
+                'of a stream that is never given a partially reliable policy belong to no abandoned message, whatever happens to other messages), C07_abandoned_not_retransmitted (T3 and '
+                'RACK/PTO marks never flag, the fast-retransmit gather and the T3 retransmission gather never send an abandoned chunk) with C07_d21_regression (finding D21, found by this '
+                'theorem: getDataPacketsToRetransmit did not test abandoned(); fixed in /repo, the model mirrors the fix, the witness is replayed from corpus/C06 and corpus/C07). '
+                'NOT covered by theorems: the RECEIVER half (handleForwardTSN / forwardTSNFor*: nothing that was not abandoned is purged, later messages are delivered, partially received and '
+                'first-on-stream cases) and the composition of both halves. '
+                'SYSTEM LEVEL (exploration, synctest e2e): ' + CLAIMS['C07']['text'],
+        'note': SENDER_NOTE + ' The FORWARD-TSN comparison is on the decoded chunk (new cumulative TSN, stream list sorted by stream id). ' + E2E_NOTE,
+        'technique': 'Lean 4 proof (invariant AdvInv over op lists, serial arithmetic by bv_omega, fold lemmas for the stream lists) + model/implementation differential replay of a direct-driven '
+                     'real Association + seeded e2e exploration with Lean-defined predicates for the system-level statement',
+    },
+})
+CLAIMS['C08'] = {
+    'text': 'Proved in Lean on the L0 shutdown model Sd (two established endpoints + the history of every packet each side ever sent; mirrors Shutdown, '
+            'gatherOutbound / gatherOutboundPriorityPackets / gatherOutboundShutdownPackets / gatherOutboundSackPackets, advanceShutdownAfterDataDrain, '
+            'hasPendingOrInflightData, handleData (state gate, SHUTDOWN-SENT branch, SACK decision), handleSack / processAcknowledgement / postprocessSack, '
+            'handleShutdown / processShutdownAcknowledgement / finishShutdownHandling / retransmitShutdownAck, handleShutdownAck, handleShutdownComplete, '
+            'onShutdownTimeout, onAckTimeout, the state gates of sendPayloadData and OpenStream, close() and the exit paths of readLoop / writeLoop, '
+            'Stream.WriteSCTP / ReadSCTP), for EVERY interleaving of writes on any stream, Shutdown calls on either or both sides, write-loop passes '
+            'with ANY choice of DATA chunks to send or retransmit (cwnd / rwnd / MTU bundling / burst budget / T3, fast-retransmit and RACK marks / stream '
+            'scheduler are an input of the pass, quantified over), deliveries of ANY packet ever sent (loss, duplication, reordering, delay, stale replay of '
+            'DATA, SACK, SHUTDOWN, SHUTDOWN-ACK, SHUTDOWN-COMPLETE), T2 / T3 / delayed-ack expiries, reads, transport failures, Close and Abort: '
+            '(1) C08_shutdown_ok_implies_delivered (full since the fix of D22; + C08_d22_transport_failure_reports_error, C08_interrupted_shutdown_reports_error: transport failure / Close / Abort during a waiting call give the error): if Shutdown has returned nil, every message accepted before the call '
+            'has been handed to the peer\'s streams, what the peer read from each stream is an in-order prefix of what was written to it, and every stream that '
+            'reported closure had delivered everything first; (2) C08_no_write_after_shutdown: once a Shutdown call passed its state gate every write is '
+            'rejected and queues nothing, OpenStream is refused; (3) C08_shutdown_states_drained: SHUTDOWN-SENT / SHUTDOWN-ACK-SENT only with nothing queued '
+            'or in flight, Shutdown returns nil only when closed; (4) C08_closed_absorbing, C08_stale_harmless: a closed endpoint never changes or emits, '
+            'replaying any old packet never un-delivers, re-opens or makes Shutdown return early; (5) liveness on explicit schedules for EVERY message count '
+            '(induction over rounds, Shutdown called with all data still queued): fault-free completes on both sides, crossed shutdown completes with both '
+            'calls returning nil, single loss of SHUTDOWN / SHUTDOWN-ACK recovered by T2, lost SHUTDOWN-COMPLETE leaves the peer closing on transport close; '
+            '(6) C08_state_constants, C08_gates_match_code: state numbers and the three translated state gates equal the code\'s. '
+            'The model is tied to the code by line-by-line differential replay against two REAL established associations driven single-threaded under '
+            'testing/synctest (real readLoop and real Shutdown call, write loop stepped explicitly; result of every op and the full state line of both '
+            'endpoints compared) and by the predicate P_C08 evaluated on the implementation\'s own outputs. SYSTEM LEVEL (exploration, kept): synctest e2e '
+            'shutdown scenarios with real loops and timers under seeded fault schedules.',
+    'note': NOTE_COMMON + ' Model abstractions: one DATA chunk per message (<= 1100 bytes in the harness); TSNs / ack points as offsets from the initial TSN '
+            '(wrap-around is C16); which chunks a pass sends is an input checked for well-formedness only (in the replay it is read off the packets the real code '
+            'emitted); receive buffer never full and streams pre-opened; ackMode normal; ABORT only as sent by Abort(); no RECONFIG / FORWARD-TSN / HEARTBEAT traffic. '
+            'D22 (Shutdown returned nil on local transport failure / Close / Abort with data still queued) was found with this model and is fixed in /repo; witnesses corpus/C08/sd_d22_*.ops, sd_close_and_abort_during_shutdown.ops. Liveness is proved for the explicit schedules '
+            'named, not for arbitrary fair schedules; blocking of the Shutdown caller and real goroutine interleavings are sampled (synctest), not enumerated.',
+    'technique': 'Lean 4 proof (inductive invariant over all op lists of a two-endpoint + packet-history model; induction over rounds for liveness) '
+                 '+ model/implementation differential replay + executable predicate on implementation outputs + e2e scenarios',
+}
+# ---- receive half of the association (Model/Receiver.lean, go/harness/recv_test.go) ---------------------------------------------
+RECV_NOTE = (' RECEIVE HALF: the L0 model Model/Receiver.lean is hand-written (handleData, acceptPayloadData, pushPayloadDataToStream, '
+             'handlePeerLastTSNAndAcknowledgement, handleChunksStart/End, onAckTimeout, createSelectiveAckChunk and the SACK/ABORT/control part of gatherOutbound, '
+             'handleForwardTSN, handleIForwardTSN, handleHeartbeat, the outgoing-reset part of handleReconfigParam, resetStreamsIfAny, Stream.ReadSCTP, the DATA check()) and '
+             'COMPOSES the component models RecvQ, Reasm and the ack-timer automaton AckSys (nothing re-modelled); its credit clamp, zero-window admission test, state gate, '
+             'kind test, gap test, sackNow, the three ack-decision conditions, the stale-FORWARD-TSN tests, the deferred-reset test and the SACK-pending test are Gen.* expression '
+             'sites regenerated from association.go on every run. Tie: direct-drive correspondence TestVerifAssocReceiver - one real Association driven single-threaded under '
+             'testing/synctest through the real inbound path (real marshal + handleInbound); after EVERY op the whole white-box state line (cumulative TSN, queue size, gap blocks, '
+             'ack state, ack timer, advertised credit, user bytes held per Stream OBJECT found by walking the real reassembly structures - objects already deleted from a.streams '
+             'included -, stream count, accept backlog, ABORT flag, association state, virtual time) and every packet of gatherOutbound are compared with the model; honest peer '
+             '(fragmenting, reordering, duplicating, losing + retransmitting, abandoning + FORWARD-TSN, stream resets) and hostile peer (ignores the window, TSNs anywhere in the '
+             'number space, duplicates of everything, zero-length DATA, wrong chunk kinds, stale and far FORWARD-TSNs, unknown streams, > 16 unaccepted streams, unread streams, raw '
+             'mutated packets); every sequence run twice as a shift pair (peer initial TSN mid-space / just below 2^32). Not modelled: SHUTDOWN exchange, the round-trip estimator, '
+             'Go map iteration order of simultaneous reset responses (packets compared as a multiset), decoding (raw packets are classified by the real decoder).')
+
+CLAIMS['C05']['text'] += (' ASSOCIATION LEVEL (Props/C05recv.lean): C05_assoc_sack_sound / C05_assoc_sack_complete - every SACK gatherOutbound emits after ANY op list carries exactly '
+    'the receive-queue state, which is the state of a ghost-instrumented run of association-level queue operations, so S1 (cumulative point covers only accepted or skipped TSNs), '
+    'S2 (gap blocks name only accepted TSNs; sorted, disjoint, non-adjacent) and S4 (every accepted TSN reported, blocks maximal) hold for it; C05_assoc_cum_monotone - no inbound chunk '
+    'moves the cumulative point backwards. The executable ghost-set predicate is evaluated on every SACK and after every op of the real association. Not lifted: "blocks start at offset >= 2" '
+    '(holds in the model except after a reassembly-limit ABORT).')
+CLAIMS['C05']['note'] += RECV_NOTE
+CLAIMS['C16']['text'] += (' Receive half of the association: every receiver sequence of TestVerifAssocReceiver is run as a shift pair and compared after normalising TSNs.')
+CLAIMS['C11']['text'] = CLAIMS['C11']['text'].replace(
+    'Statements (b)-(d) (a_rwnd formula over streams, window admission, zero-window rule) belong to the Receiver model and are NOT covered yet.',
+    'ASSOCIATION LEVEL (Props/C11recv.lean, all op lists of the receive-half model): C11_credit_formula - getMyReceiverWindowCredit, i.e. the a_rwnd of every SACK, = buffer minus user '
+    'bytes held by the REGISTERED streams, clamped at 0 (full buffer when they hold nothing), every per-stream counter exact along association runs (fewer than 2^63 user bytes in total; sum '
+    'below 2^32); C11_window_admission - the user bytes held by all stream objects grow by at most the chunk length and only if the TSN lies in (cum, cum+maxTSNOffset], maxTSNOffset <= 40000, '
+    'is not held, a stream object exists, and there is credit or the TSN is below the highest TSN received; C11_zero_window_admission - at zero credit only chunks serially below the highest '
+    'TSN received are stored. Executable predicates on the real association: a_rwnd of every SACK and the credit after every op against a walk of the real structures, window and zero-window '
+    'rule per stored chunk, held-bytes delta per op, bytes bound buffer + maxTSNOffset x largest chunk, full buffer at the drained marker. '
+    'C11_bytes_bound - for any op list whose DATA chunks carry at most M user bytes each, the registered streams never hold more than buffer + maxTSNOffset*M user bytes '
+    '(potential argument over the unset slots of the receive queue, Proofs/RecvQ/Unset.lean; side conditions buffer + 40000*M < 2^32 and < 2^63 bytes in total), hence '
+    'C11_credit_formula_bounded without a separate no-wrap hypothesis. KNOWN FINDING D13 (replayed every run): a stream reset by the peer is deleted from the table while its '
+    'unread bytes are still held, so they are not counted - the credit formula is over registered streams.')
+CLAIMS['C11']['note'] += RECV_NOTE
+CLAIMS['C19']['text'] = CLAIMS['C19']['text'].replace(
+    'NOT covered here (pending, association level): SACK sent at once on gap/duplicate and within 200 ms of every DATA packet '
+    '(only the ack-timer law it rests on: C19_ack_delay_bound_partial), and the heartbeat echo / round-trip sample (DESIGN D1, D2, D11 live there).',
+    'ASSOCIATION LEVEL (Props/C19recv.lean, receive-half model with the ack-timer automaton embedded): C19_ack_delay_bound - in every reachable state, after any packet, a delayed '
+    'acknowledgement has the ack timer started and armed with a deadline <= arrival + 200 ms, a running timer is never pushed back, and reaching the deadline makes the ack immediate '
+    '(one shot); C19_ack_scheduled - a handled DATA chunk never leaves the ack state idle; C19_ack_immediate_on_gap, C19_ack_immediate_on_dup (with C19_dup_meaning: what canPush refuses); '
+    'C19_immediate_ack_is_sent; C19_heartbeat_echo. Executable predicates on the real association under virtual time: timer expiry within 200 ms of arming, immediacy on gap / duplicate / '
+    'unacceptable TSN, SACK emitted exactly when due, HEARTBEAT echoed with the same info, first round-trip sample from a HEARTBEAT-ACK. Not modelled: the RTT estimator update '
+    '(an unauthenticated HEARTBEAT-ACK with a forged timestamp is accepted as a sample - observed, clamped by the RTO bounds).')
+CLAIMS['C19']['note'] += RECV_NOTE
+CLAIMS['C17']['text'] = CLAIMS['C17']['text'].replace(
+    'The negotiation half (I-DATA/I-FORWARD-TSN exactly when both sides enabled it, wrong kind => protocol-violation ABORT) is tied elsewhere / pending.',
+    'Negotiation half, receive side (Props/C17recv.lean): C17_wrong_kind_abort - DATA under interleaving, I-DATA without it, FORWARD-TSN under interleaving and I-FORWARD-TSN without support '
+    'only raise the ABORT flag (nothing accepted, nothing acknowledged), and C17_abort_is_sent - the next gather emits exactly the protocol-violation ABORT and closes; checked on the real '
+    'association (ABORT flag after every wrong-kind chunk, cause code 13 on the wire).')
+CLAIMS['C17']['text'] = CLAIMS['C17']['text'].replace('Scheduler half proved, negotiation half not claimed here.', 'Scheduler half proved; of the negotiation half the receive side (wrong kind => ABORT) is proved, that each side sends the negotiated kind is C04 + e2e.')
+CLAIMS['C17']['note'] += RECV_NOTE
+CLAIMS['C01']['text'] = CLAIMS['C01']['text'].replace(
+    'NOT covered yet: packetize/TSN assignment (C01_packetize_wf, C01_tsn_assignment), duplicate filtering (C01_dedup, C05), wire content, and the end-to-end NetSys invariant (C01_netsys_prefix).',
+    'RECEIVE-SIDE SYSTEM THEOREM (Props/C01recv.lean, receive-half model of the association): C01_dedup - in every reachable state (any op list) a chunk handed to a stream has a TSN inside the '
+    'tracking window whose absolute index was never accepted before and counts as accepted ever after: a TSN reaches pushWithError at most once per association; C01_receiver_prefix / '
+    'C01_receiver_prefix_idata - for ANY arrival history of chunks drawn from the fragment universe of a message list per stream (any order, duplication, loss, bundling; any number of streams '
+    'sharing the TSN space; initial TSN anywhere incl. the wrap; fewer than 2^31 TSNs in all), interleaved with reads of any buffer size, accept/open/gather/ticks/state changes, the successful '
+    'reads on each ordered stream form a prefix of its messages - composition of C01_dedup with the reassembly refinements, under the 2^15 (SSN) / 2^31 (MID) window hypothesis (D15). '
+    'Executable delivery predicate on the real association against generator ground truth. NOT covered: packetize/TSN assignment on the SEND side (C01_packetize_wf, C01_tsn_assignment), '
+    'wire content, FORWARD-TSN / reset in the prefix theorem (reliable streams only), and the two-endpoint NetSys invariant (C01_netsys_prefix).')
+CLAIMS['C01']['note'] += RECV_NOTE
+if 'C03' in CLAIMS:
+    CLAIMS['C03']['text'] += (' RECEIVE HALF (Props/C03recv.lean): C03_recv_total - no op list drives the receive-half model into its explicit panic outcome (the two empty-slice accesses of '
+        'pushWithError are unreachable: C03_reasm_push_total); C03_stale_fwdtsn_noop / C03_stale_ifwdtsn_noop - a FORWARD-TSN at or behind the cumulative point changes nothing but forces an '
+        'acknowledgement (C03_stale_fwdtsn_acked); C03_zero_length_abort; C03_data_ignored_outside_receive_states. On the real association: every packet under recover(), rejected packets and '
+        'packets in non-receiving states leave the state line unchanged.')
+    CLAIMS['C03']['note'] += RECV_NOTE
+CLAIMS.update({
+    'C14': {
+        'text': 'Proved in Lean on the L0 model Rs of outgoing stream reset between two established associations (mirrors Stream.Close / WriteSCTP / ReadSCTP / '
+                'onInboundStreamReset, OpenStream / getOrCreateStream, sendResetRequest, the end-of-stream marker in popPendingDataChunksToSend, '
+                'gatherOutboundDataAndReconfigPackets, handleData / handlePeerLastTSNAndAcknowledgement, handleReconfigParam, resetStreamsIfAny, '
+                'resetOutgoingStreamSequenceNumbers, T-reconfig expiry; two endpoints + the history of every packet each side ever sent, stream objects addressed by '
+                'handle), for EVERY operation list (application calls on any handle, write-loop passes with any admissible pending-queue selection and any '
+                'retransmissions, delivery of any old packet to the other side = loss / duplication / reordering / stale replay, timer expiry): '
+                'C14_eof_after_data (a reader that was given EOF has been handed every message its partner object wrote — ordered ones in order — and the partner was closed; '
+                'for identifiers the applications re-open only after both directions were reset), C14_marker_after_data, C14_deferred_until_cum, '
+                'C14_received_stay_readable / C14_reset_keeps_queues / C14_read_before_error (no inbound packet removes a queued message; Read serves the queue before EOF), '
+                'C14_duplicate_request_harmless (D10: a request whose number was performed is answered and changes nothing else), C14_late_response_harmless (D16: a response never '
+                'touches an open stream), C14_reopen_fresh / C14_numbering_from_zero / C14_no_mixing (a re-opened identifier starts from 0 on both sides and never receives '
+                'chunks of another incarnation), and on the exact model of rememberPerformedReset (uint32, serial compare, trimming): C14_performed_recent_remembered, '
+                'C14_performed_newest_is_max, C14_performed_only_remembered (+ C16_performed_set_shift_invariant). The model is replayed line by line against two REAL '
+                'associations driven single-threaded under testing/synctest (TestVerifReset: loss, duplication, reordering, stale replays of DATA / SACK / RECONFIG, both ends '
+                'closing at once, several streams, request before its data, lost response + T-reconfig, scripted D10 / D16, thousands of rememberPerformedReset calls as shift pairs); '
+                'the predicate P_C14 (MIX / DUP / ORDER / EOF / SEQ / REMEMBER / SHIFT) is evaluated on the implementation outputs. Plus the e2e reset scenarios (exploration).',
+        'note': NOTE_COMMON + ' Model abstractions (quantified over in the theorems, recorded from the real code by the harness): which pending entries leave the queue in one '
+                'gatherOutbound call and which sent chunks are retransmitted (congestion control, RACK, T3 are inputs), whether a SACK is due. TSN / RSN / SSN / MID are natural '
+                'numbers (no wrap: C16), messages are unfragmented, the receive buffer is never full, initial TSNs are not 0. The two-endpoint model keeps every performed RSN; '
+                'the exact bookkeeping (trim to newest-1024 above 2048 entries) is modelled and proved separately and the driver flags a run in which the two disagree. '
+                'C14_eof_after_data judges an identifier only while the applications re-open it in states where both directions were reset (Sys.quiet: in neither stream table, no object '
+                'open, no marker queued, every request naming it performed); pion offers the application no signal for that — see the observation in DESIGN §5 C14 (crossed close + early re-open loses data).',
+        'technique': 'Lean 4 proof (local send/receive invariants, cross-endpoint invariant over packet histories, incarnation bookkeeping; induction over arbitrary op lists) + '
+                     'model/implementation differential replay of two direct-driven real Associations + executable predicate on implementation outputs + e2e exploration',
     },
 })
 
